@@ -19,7 +19,7 @@ use verif_common::*;
 fn run_case(w: &mut World, input: &str) -> (String, Outcome) {
     let toks: Vec<&str> = input.split(' ').collect();
     let bad = |i: &str| (i.to_string(), Outcome::new("bad-case").trivial().tag("bad-case"));
-    if toks.len() < 2 || toks.len() > 3 {
+    if toks.len() < 2 || toks.len() > 4 {
         return bad(input);
     }
     let Some(chs) = parse_changes(toks[0]) else { return bad(input) };
@@ -32,11 +32,15 @@ fn run_case(w: &mut World, input: &str) -> (String, Outcome) {
         Ok(b) => b,
         Err(e) => return (input.to_string(), Outcome::new(format!("store-failed:{e}")).trivial()),
     };
-    let ord = format!("ord={}", b.ord.iter().map(|x| x.to_string()).collect::<Vec<_>>().join(","));
-    let canon = format!("{} {} {}", toks[0], toks[1], ord);
+    let canon = format!("{} {} {}", toks[0], toks[1], facts(&b));
     let mut o = Outcome::new("");
-    if toks.len() == 3 && toks[2] != ord {
-        o.tags.push("oid-order-differs-from-recorded".into());
+    if toks.len() == 4 && format!("{} {}", toks[2], toks[3]) != facts(&b) {
+        o.tags.push("facts-differ-from-recorded".into());
+    }
+    for (i, c) in chs.iter().enumerate() {
+        if c.forged == b.sig[i] {
+            o.violations.push(("harness-forgery-mismatch".into(), format!("change {i}: forged={} but valid_signatures()={}", c.forged, b.sig[i])));
+        }
     }
     let mut outs = vec![];
     // (closure, exact result) per tip set
@@ -101,6 +105,28 @@ fn run_case(w: &mut World, input: &str) -> (String, Outcome) {
     }
     if (1..chs.len()).any(|i| !accepted(&chs, i)) {
         o.tags.push("has-rejected-change".into());
+    }
+    for (i, c) in chs.iter().enumerate() {
+        if c.forged {
+            o.tags.push("bad-signature".into());
+            let has_child = chs.iter().any(|d| d.parents.contains(&Some(i)));
+            o.tags.push(if i == 0 { "bad-signature-root" } else if has_child { "bad-signature-interior" } else { "bad-signature-tip" }.into());
+            // a tip set in which some valid ancestor is reachable only through the badly signed change
+            let through = tipsets.iter().any(|t| {
+                let full = closure(&chs, t);
+                let mut st: Vec<usize> = t.iter().flatten().copied().filter(|x| *x != i).collect();
+                let mut seen = std::collections::BTreeSet::new();
+                while let Some(x) = st.pop() {
+                    if x != i && seen.insert(x) {
+                        st.extend(chs[x].parents.iter().flatten().copied());
+                    }
+                }
+                full.contains(&i) && full.iter().any(|x| *x != i && !seen.contains(x))
+            });
+            if through {
+                o.tags.push("ancestors-only-through-bad-signature".into());
+            }
+        }
     }
     o.tags.push(format!("tipsets-{}", match tipsets.len() { 0..=2 => "1-2", 3..=8 => "3-8", _ => "9+" }));
     o.tags.push(format!("closure-groups-{}", groups.min(4)));
